@@ -4,6 +4,7 @@ import (
 	"math/big"
 	"testing"
 
+	"github.com/bytemare/secp256k1"
 	"github.com/bytemare/secp256k1/verifharness/gen"
 	"github.com/bytemare/secp256k1/verifharness/pt"
 	"github.com/bytemare/secp256k1/verifharness/ref"
@@ -228,6 +229,23 @@ var c05 = gen.Register(&gen.Check[caseC05]{
 		}
 		if got := b.E.IsIdentity(); got != b.Model.Inf {
 			return gen.Fail("IsIdentity/after-observers", "IsIdentity = %v for %s after it was encoded and printed", got, b.Model)
+		}
+		// predicates taken as method values (done := acc.IsIdentity; matches := target.Equal) BEFORE the object received its value
+		// through the pointer: a method value of a pointer method is bound to the object, not to what it held at that moment
+		h := secp256k1.Base()
+		if want && !a.Model.Inf && a.Model.Equal(ref.G()) {
+			h = secp256k1.NewElement()
+		}
+		isID, eq, eqRev := h.IsIdentity, h.Equal, b.E.Equal
+		h.Set(a.E)
+		if got := isID(); got != a.Model.Inf {
+			return gen.Fail("IsIdentity/bound-early", "a method value IsIdentity taken before the object was Set to %s answers %v", a.Model, got)
+		}
+		if got := eq(b.E); got != wi {
+			return gen.Fail("Equal/bound-early", "a method value Equal taken before the object was Set to %s answers %d against %s, want %d", a.Model, got, b.Model, wi)
+		}
+		if got := eqRev(h); got != wi {
+			return gen.Fail("Equal/bound-early", "Equal(%s, object Set to %s) = %d, want %d", b.Model, a.Model, got, wi)
 		}
 		return nil
 	},
